@@ -5,6 +5,7 @@ package c19
 import (
 	"fmt"
 	"os"
+	"runtime/debug"
 	"strings"
 	"time"
 
@@ -29,6 +30,9 @@ func safe(f func()) (perr string) {
 			perr = o.Err
 			if common.Fault(o.Msg) {
 				perr = "fault"
+				if os.Getenv("VERIF_C19_STACK") != "" {
+					fmt.Fprintf(os.Stderr, "FAULT %s\n%s\n", o.Msg, debug.Stack())
+				}
 			}
 			if perr == "" {
 				perr = "error"
@@ -335,7 +339,11 @@ func Run(ctx *common.Ctx) {
 	terms, descs = spread(terms, descs, nvalues)
 	header := "From Coq Require Import List String ZArith NArith Bool.\nImport ListNotations.\nFrom C19 Require Import Model Spec Corr.\n"
 	footer := "Definition res := Eval vm_compute in check_all cases.\nPrint res.\nDefinition gcount := Eval vm_compute in guard_count cases.\nPrint gcount.\n"
-	ctx.WriteShards("cases", header, "case", footer, terms, descs, 16)
+	nshards := 16
+	if ctx.Thorough() {
+		nshards = 64 // a coqc process needs about 3 GB for 600 cases; the check evaluates 16 shards at a time
+	}
+	ctx.WriteShards("cases", header, "case", footer, terms, descs, nshards)
 	ctx.ReplayKnownLisp()
 	replayKnown(ctx, dir, base)
 }
